@@ -125,16 +125,28 @@ def scan_hot_lines(prefix: str):
                 tree = ast.parse(open(path).read())
             except Exception:
                 continue
-            module_names = {t.id for n in tree.body if isinstance(n, (ast.Assign, ast.AnnAssign))
-                            for t in (n.targets if isinstance(n, ast.Assign) else [n.target]) if isinstance(t, ast.Name)}
+            # module-level names bound to a mutable container ({} [] set() dict() OrderedDict() defaultdict() ...)
+            module_names = set()
+            for n in tree.body:
+                if isinstance(n, (ast.Assign, ast.AnnAssign)) and n.value is not None:
+                    v = n.value
+                    mutable = isinstance(v, (ast.Dict, ast.List, ast.Set)) or (
+                        isinstance(v, ast.Call) and isinstance(v.func, (ast.Name, ast.Attribute))
+                        and (v.func.id if isinstance(v.func, ast.Name) else v.func.attr) in ("dict", "list", "set", "OrderedDict", "defaultdict", "deque", "WeakValueDictionary"))
+                    if mutable:
+                        for t in (n.targets if isinstance(n, ast.Assign) else [n.target]):
+                            if isinstance(t, ast.Name):
+                                module_names.add(t.id)
             lines = set()
 
             def is_shared(node):
+                top = node
                 while isinstance(node, (ast.Subscript, ast.Attribute)):
                     if isinstance(node, ast.Attribute) and isinstance(node.value, ast.Name) and node.value.id in ("self", "cls"):
                         return True
                     node = node.value
-                return isinstance(node, ast.Name) and node.id in module_names and False
+                # a module-level container: only when it is subscripted / method-called, not when a local shadows it by plain assignment
+                return isinstance(node, ast.Name) and node.id in module_names and node is not top
 
             for fdef in ast.walk(tree):
                 if not isinstance(fdef, (ast.FunctionDef, ast.AsyncFunctionDef)) or fdef.name in ("__init__", "__new__"):
@@ -149,7 +161,12 @@ def scan_hot_lines(prefix: str):
                     elif isinstance(n, ast.NamedExpr):
                         targets = []
                     elif isinstance(n, ast.Expr) and isinstance(n.value, ast.Call) and isinstance(n.value.func, ast.Attribute):
-                        if n.value.func.attr in _MUTATORS and is_shared(n.value.func.value):
+                        fv = n.value.func.value
+                        if n.value.func.attr in _MUTATORS and (is_shared(fv) or (isinstance(fv, ast.Name) and fv.id in module_names)):
+                            lines.add(n.lineno)
+                    if isinstance(n, (ast.Assign, ast.AnnAssign)) and isinstance(getattr(n, "value", None), ast.Call) and isinstance(n.value.func, ast.Attribute):
+                        fv = n.value.func.value
+                        if n.value.func.attr in _MUTATORS and (is_shared(fv) or (isinstance(fv, ast.Name) and fv.id in module_names)):
                             lines.add(n.lineno)
                     for t in targets:
                         for tt in (t.elts if isinstance(t, (ast.Tuple, ast.List)) else [t]):
@@ -278,6 +295,7 @@ class Sim:
         self.pct_d = pct_d
         self.hot_boost = hot_boost
         self._last_hot = None
+        self._hot_left = {}
         self.script_preempts = set(map(tuple, preempts or ()))
         self.script_choices = [tuple(c) for c in (choices or ())]
         self.choice_i = 0
@@ -344,11 +362,16 @@ class Sim:
                     p = self.preempt_p
                     if p > 0 and self.hot_boost:
                         hl = HOT_LINES.get(frame.f_code.co_filename)
-                        if hl is not None and (frame.f_lineno in hl or self._last_hot == w.idx):
-                            # at (or right after) a statement that writes shared state
-                            self._last_hot = w.idx if frame.f_lineno in hl else None
-                            p = max(p, self.hot_boost)
-                            self.stats["hot_events"] += 1
+                        if hl is not None:
+                            # at a statement that writes shared state, and for the next few events of the same task
+                            # (the window in which a half-finished update is visible to other tasks)
+                            if frame.f_lineno in hl:
+                                self._hot_left[w.idx] = 8
+                            left = self._hot_left.get(w.idx, 0)
+                            if left > 0:
+                                self._hot_left[w.idx] = left - 1
+                                p = max(p, self.hot_boost)
+                                self.stats["hot_events"] += 1
                     do = p > 0 and self.rng.random() < p
                     if not do and self.policy == "pct" and self._pct_change and self.stats["events"] >= self._pct_change[0]:
                         # PCT priority change point: demote the running worker and yield
